@@ -4,6 +4,8 @@ import MgProof.C13.LemmasSelect
 import MgProof.C13.LemmasEpoll
 import MgProof.C13.LemmasReady
 import MgProof.C13.LemmasEpollReady
+import MgProof.C13.LemmasSelectFd
+import MgProof.C13.LemmasAgree
 /-!
 # C13 — property theorems (event loop callback life-cycle; select, poll, epoll agree)
 
@@ -27,19 +29,20 @@ open MgModel.C13
 
 /-- the state when the back-end's loop returns, before the clear / exit callbacks -/
 def loopEnd (b : Backend) (hints : Nat) (legacy : Bool) (kinds : List Kind) (pre : List Act)
-    (sc : Script) (fuel : Nat) : St :=
-  backendRun sc fuel (runActs pre (initSt b hints legacy kinds))
+    (sc : Script) (fuel : Nat) (lsel cfd : Bool) : St :=
+  backendRun sc fuel (runActs pre (initSt b hints legacy kinds lsel cfd))
 
-theorem initSt_inv (b : Backend) (hints : Nat) (legacy : Bool) (kinds : List Kind) :
-    Inv none (initSt b hints legacy kinds) := by
+theorem initSt_inv (b : Backend) (hints : Nat) (legacy : Bool) (kinds : List Kind) (lsel cfd : Bool) :
+    Inv none (initSt b hints legacy kinds lsel cfd) := by
   constructor <;> simp [initSt, LoopWF]
 
 theorem loopEnd_inv (b : Backend) (hints : Nat) (legacy : Bool) (kinds : List Kind) (pre : List Act)
-    (sc : Script) (fuel : Nat) : Inv none (loopEnd b hints legacy kinds pre sc fuel) := by
+    (sc : Script) (fuel : Nat) (lsel cfd : Bool) :
+    Inv none (loopEnd b hints legacy kinds pre sc fuel lsel cfd) := by
   unfold loopEnd backendRun
-  have h0 : Inv none (runActs pre (initSt b hints legacy kinds)) := runActs_inv pre (initSt_inv _ _ _ _)
-  have hb : (runActs pre (initSt b hints legacy kinds)).backend = b := (runActs_ext pre _).backend
-  generalize runActs pre (initSt b hints legacy kinds) = s0 at h0 hb
+  have h0 : Inv none (runActs pre (initSt b hints legacy kinds lsel cfd)) := runActs_inv pre (initSt_inv _ _ _ _ _ _)
+  have hb : (runActs pre (initSt b hints legacy kinds lsel cfd)).backend = b := (runActs_ext pre _).backend
+  generalize runActs pre (initSt b hints legacy kinds lsel cfd) = s0 at h0 hb
   split
   · rename_i hh; exact selLoop_inv sc fuel h0 hh
   · exact pollLoop_inv sc fuel h0
@@ -56,12 +59,12 @@ theorem loopEnd_inv (b : Backend) (hints : Nat) (legacy : Bool) (kinds : List Ki
 the events are the events of the back-end loop, then one `cb_clear` per context in
 `ctx_list` in list order, then `cb_exit`. -/
 theorem run_events (b : Backend) (hints : Nat) (legacy : Bool) (kinds : List Kind) (pre : List Act)
-    (sc : Script) (fuel : Nat) :
-    (scenario b hints legacy kinds pre sc fuel).events =
-      (loopEnd b hints legacy kinds pre sc fuel).events ++
-        (loopEnd b hints legacy kinds pre sc fuel).ctxList.map Ev.clear ++ [Ev.exit] := by
+    (sc : Script) (fuel : Nat) (lsel cfd : Bool) :
+    (scenario b hints legacy kinds pre sc fuel lsel cfd).events =
+      (loopEnd b hints legacy kinds pre sc fuel lsel cfd).events ++
+        (loopEnd b hints legacy kinds pre sc fuel lsel cfd).ctxList.map Ev.clear ++ [Ev.exit] := by
   unfold scenario run loopEnd
-  generalize backendRun sc fuel (runActs pre (initSt b hints legacy kinds)) = s
+  generalize backendRun sc fuel (runActs pre (initSt b hints legacy kinds lsel cfd)) = s
   have key : ∀ (l : List Nat) (s : St),
       (l.foldl (fun s c => emit (.clear c) s) s).trace = (l.map Ev.clear).reverse ++ s.trace := by
     intro l
@@ -75,68 +78,68 @@ theorem run_events (b : Backend) (hints : Nat) (legacy : Bool) (kinds : List Kin
 
 section LifeCycle
 variable (b : Backend) (hints : Nat) (legacy : Bool) (kinds : List Kind) (pre : List Act)
-  (sc : Script) (fuel : Nat)
+  (sc : Script) (fuel : Nat) (lsel cfd : Bool)
 
-private theorem regL : ∀ c, c ∈ (loopEnd b hints legacy kinds pre sc fuel).ctxList ↔
-    Registered (loopEnd b hints legacy kinds pre sc fuel).trace c := by
+private theorem regL : ∀ c, c ∈ (loopEnd b hints legacy kinds pre sc fuel lsel cfd).ctxList ↔
+    Registered (loopEnd b hints legacy kinds pre sc fuel lsel cfd).trace c := by
   intro c
-  have h := loopEnd_inv b hints legacy kinds pre sc fuel
+  have h := loopEnd_inv b hints legacy kinds pre sc fuel lsel cfd
   constructor
   · intro hc; exact registered_of_mem h hc
   · intro hr; exact h.complete c hr.1 hr.2
 
 /-- **Life-cycle 1a** — `cb_close c` is called at most once for every context `c`. -/
 theorem close_at_most_once (c : Nat) :
-    (scenario b hints legacy kinds pre sc fuel).events.count (Ev.close c) ≤ 1 := by
+    (scenario b hints legacy kinds pre sc fuel lsel cfd).events.count (Ev.close c) ≤ 1 := by
   rw [run_events]
-  exact chrono_close_once (loopEnd_inv b hints legacy kinds pre sc fuel).wf c
+  exact chrono_close_once (loopEnd_inv b hints legacy kinds pre sc fuel lsel cfd).wf c
 
 /-- **Life-cycle 1b** — after `cb_close c` no callback (read, close, clear) mentions `c` again. -/
 theorem no_callback_after_close {pre' post : List Ev} {c : Nat}
-    (h : (scenario b hints legacy kinds pre sc fuel).events = pre' ++ Ev.close c :: post) :
+    (h : (scenario b hints legacy kinds pre sc fuel lsel cfd).events = pre' ++ Ev.close c :: post) :
     ∀ e ∈ post, ¬ Ev.callsBack c e := by
   rw [run_events] at h
-  exact chrono_after_close (loopEnd_inv b hints legacy kinds pre sc fuel).wf
-    (fun c hc => (regL b hints legacy kinds pre sc fuel c).mp hc) h
+  exact chrono_after_close (loopEnd_inv b hints legacy kinds pre sc fuel lsel cfd).wf
+    (fun c hc => (regL b hints legacy kinds pre sc fuel lsel cfd c).mp hc) h
 
 /-- **Life-cycle 1c** — `cb_read c` and `cb_close c` are only called while `c` is registered:
 `muggle_evloop_add_ctx` accepted it earlier and it has not been closed. -/
 theorem read_only_while_registered {pre' post : List Ev} {c n : Nat} {e : Bool}
-    (h : (scenario b hints legacy kinds pre sc fuel).events = pre' ++ Ev.read c n e :: post) :
+    (h : (scenario b hints legacy kinds pre sc fuel lsel cfd).events = pre' ++ Ev.read c n e :: post) :
     Ev.addOk c ∈ pre' ∧ Ev.close c ∉ pre' := by
   rw [run_events] at h
-  exact chrono_read_registered (loopEnd_inv b hints legacy kinds pre sc fuel).wf h
+  exact chrono_read_registered (loopEnd_inv b hints legacy kinds pre sc fuel lsel cfd).wf h
 
 theorem close_only_while_registered {pre' post : List Ev} {c : Nat}
-    (h : (scenario b hints legacy kinds pre sc fuel).events = pre' ++ Ev.close c :: post) :
+    (h : (scenario b hints legacy kinds pre sc fuel lsel cfd).events = pre' ++ Ev.close c :: post) :
     Ev.addOk c ∈ pre' ∧ Ev.close c ∉ pre' := by
   rw [run_events] at h
-  exact chrono_close_registered (loopEnd_inv b hints legacy kinds pre sc fuel).wf h
+  exact chrono_close_registered (loopEnd_inv b hints legacy kinds pre sc fuel lsel cfd).wf h
 
 /-- **Life-cycle 1d** — `cb_clear c` is called exactly once for every context that was accepted
 and not closed (i.e. is still registered when the loop exits) and never for any other. -/
 theorem clear_exactly_once_each_registered (c : Nat) :
-    (scenario b hints legacy kinds pre sc fuel).events.count (Ev.clear c) =
-      if Ev.addOk c ∈ (scenario b hints legacy kinds pre sc fuel).events ∧
-         Ev.close c ∉ (scenario b hints legacy kinds pre sc fuel).events then 1 else 0 := by
+    (scenario b hints legacy kinds pre sc fuel lsel cfd).events.count (Ev.clear c) =
+      if Ev.addOk c ∈ (scenario b hints legacy kinds pre sc fuel lsel cfd).events ∧
+         Ev.close c ∉ (scenario b hints legacy kinds pre sc fuel lsel cfd).events then 1 else 0 := by
   rw [run_events]
-  have h := loopEnd_inv b hints legacy kinds pre sc fuel
-  exact chrono_clear_count h.wf h.nodupL (regL b hints legacy kinds pre sc fuel) c
+  have h := loopEnd_inv b hints legacy kinds pre sc fuel lsel cfd
+  exact chrono_clear_count h.wf h.nodupL (regL b hints legacy kinds pre sc fuel lsel cfd) c
 
 /-- **Life-cycle 1e** — `cb_exit` is called exactly once and is the last event. -/
 theorem exit_once_and_last :
-    (scenario b hints legacy kinds pre sc fuel).events.getLast? = some Ev.exit ∧
-    (scenario b hints legacy kinds pre sc fuel).events.count Ev.exit = 1 := by
+    (scenario b hints legacy kinds pre sc fuel lsel cfd).events.getLast? = some Ev.exit ∧
+    (scenario b hints legacy kinds pre sc fuel lsel cfd).events.count Ev.exit = 1 := by
   rw [run_events]
-  exact chrono_exit (loopEnd_inv b hints legacy kinds pre sc fuel).wf
+  exact chrono_exit (loopEnd_inv b hints legacy kinds pre sc fuel lsel cfd).wf
 
 /-- every context is answered at most once by `muggle_evloop_add_ctx` (the harness adds a
 context at most once; this is what makes "never called back after close" meaningful) -/
 theorem add_at_most_once (c : Nat) :
-    (scenario b hints legacy kinds pre sc fuel).events.count (Ev.addOk c) +
-    (scenario b hints legacy kinds pre sc fuel).events.count (Ev.addRej c) ≤ 1 := by
+    (scenario b hints legacy kinds pre sc fuel lsel cfd).events.count (Ev.addOk c) +
+    (scenario b hints legacy kinds pre sc fuel lsel cfd).events.count (Ev.addRej c) ≤ 1 := by
   rw [run_events]
-  exact chrono_add_once (loopEnd_inv b hints legacy kinds pre sc fuel).wf c
+  exact chrono_add_once (loopEnd_inv b hints legacy kinds pre sc fuel lsel cfd).wf c
 
 end LifeCycle
 
@@ -146,15 +149,15 @@ end LifeCycle
 the loop never goes to sleep while a registered context has pending input (or a pending
 end-of-stream). Every script, every `hints_max_fd`, both accountings. -/
 theorem poll_never_sleeps_on_pending (hints : Nat) (legacy : Bool) (kinds : List Kind) (pre : List Act)
-    (sc : Script) (fuel : Nat) :
-    Ev.sleep true ∉ (scenario .poll hints legacy kinds pre sc fuel).events := by
+    (sc : Script) (fuel : Nat) (lsel cfd : Bool) :
+    Ev.sleep true ∉ (scenario .poll hints legacy kinds pre sc fuel lsel cfd).events := by
   rw [run_events]
-  have h0 : PInv (runActs pre (initSt .poll hints legacy kinds)) :=
+  have h0 : PInv (runActs pre (initSt .poll hints legacy kinds lsel cfd)) :=
     runActs_pinv pre ⟨rfl, by simp [initSt], by simp [initSt], by simp [initSt, NoLost]⟩
-  have i0 : Inv none (runActs pre (initSt .poll hints legacy kinds)) :=
-    runActs_inv pre (initSt_inv _ _ _ _)
-  have hb : (runActs pre (initSt .poll hints legacy kinds)).backend = .poll := h0.backend
-  have h1 : NoLost (loopEnd .poll hints legacy kinds pre sc fuel).trace := by
+  have i0 : Inv none (runActs pre (initSt .poll hints legacy kinds lsel cfd)) :=
+    runActs_inv pre (initSt_inv _ _ _ _ _ _)
+  have hb : (runActs pre (initSt .poll hints legacy kinds lsel cfd)).backend = .poll := h0.backend
+  have h1 : NoLost (loopEnd .poll hints legacy kinds pre sc fuel lsel cfd).trace := by
     unfold loopEnd backendRun
     rw [hb]
     exact (pollLoop_pinv sc fuel h0 i0).noLost
@@ -166,15 +169,15 @@ theorem poll_never_sleeps_on_pending (hints : Nat) (legacy : Bool) (kinds : List
 every dispatch `allset/nfds` again cover every context of `ctx_list` (survivors and the ones
 added by callbacks), whatever was removed or added during the scan. -/
 theorem select_never_sleeps_on_pending (hints : Nat) (legacy : Bool) (kinds : List Kind)
-    (pre : List Act) (sc : Script) (fuel : Nat) :
-    Ev.sleep true ∉ (scenario .select hints legacy kinds pre sc fuel).events := by
+    (pre : List Act) (sc : Script) (fuel : Nat) (lsel cfd : Bool) :
+    Ev.sleep true ∉ (scenario .select hints legacy kinds pre sc fuel lsel cfd).events := by
   rw [run_events]
-  have c0 : SelC (initSt .select hints legacy kinds) :=
+  have c0 : SelC (initSt .select hints legacy kinds lsel cfd) :=
     ⟨rfl, rfl, by simp [initSt], by simp [initSt, NoLost]⟩
-  have h0 : SelC (runActs pre (initSt .select hints legacy kinds)) := c0.step (runActs_srel _ _)
-  have i0 : Inv none (runActs pre (initSt .select hints legacy kinds)) :=
-    runActs_inv pre (initSt_inv _ _ _ _)
-  have h1 : NoLost (loopEnd .select hints legacy kinds pre sc fuel).trace := by
+  have h0 : SelC (runActs pre (initSt .select hints legacy kinds lsel cfd)) := c0.step (runActs_srel _ _)
+  have i0 : Inv none (runActs pre (initSt .select hints legacy kinds lsel cfd)) :=
+    runActs_inv pre (initSt_inv _ _ _ _ _ _)
+  have h1 : NoLost (loopEnd .select hints legacy kinds pre sc fuel lsel cfd).trace := by
     unfold loopEnd backendRun
     rw [h0.backend]
     exact selLoop_c sc fuel h0 i0
@@ -188,15 +191,15 @@ registered context is readable either: every readable registered context is in t
 ready list or still in the batch being dispatched. Every script whose read modes are `all`,
 every `hints_max_fd` (truncated batches included), actions of every kind in every callback. -/
 theorem epoll_never_sleeps_on_pending (hints : Nat) (legacy : Bool) (kinds : List Kind)
-    (pre : List Act) (sc : Script) (hdrain : ∀ c, sc.rmode c = .all) (fuel : Nat) :
-    Ev.sleep true ∉ (scenario .epoll hints legacy kinds pre sc fuel).events := by
+    (pre : List Act) (sc : Script) (hdrain : ∀ c, sc.rmode c = .all) (fuel : Nat) (lsel cfd : Bool) :
+    Ev.sleep true ∉ (scenario .epoll hints legacy kinds pre sc fuel lsel cfd).events := by
   rw [run_events]
-  have e0 : EInv none [] (initSt .epoll hints legacy kinds) :=
+  have e0 : EInv none [] (initSt .epoll hints legacy kinds lsel cfd) :=
     ⟨rfl, by simp [initSt], by simp [initSt], by intro c; simp [initSt, HupEof], by simp [initSt, NoLost]⟩
-  have h0 : EInv none [] (runActs pre (initSt .epoll hints legacy kinds)) := runActs_einv pre e0
-  have i0 : Inv none (runActs pre (initSt .epoll hints legacy kinds)) :=
-    runActs_inv pre (initSt_inv _ _ _ _)
-  have h1 : NoLost (loopEnd .epoll hints legacy kinds pre sc fuel).trace := by
+  have h0 : EInv none [] (runActs pre (initSt .epoll hints legacy kinds lsel cfd)) := runActs_einv pre e0
+  have i0 : Inv none (runActs pre (initSt .epoll hints legacy kinds lsel cfd)) :=
+    runActs_inv pre (initSt_inv _ _ _ _ _ _)
+  have h1 : NoLost (loopEnd .epoll hints legacy kinds pre sc fuel lsel cfd).trace := by
     unfold loopEnd backendRun
     rw [h0.backend]
     exact epLoop_einv sc hdrain fuel (epStart_einv h0) (epStart_inv i0)
@@ -212,6 +215,135 @@ def lazyScript : Script :=
 
 theorem epoll_partial_read_sleeps_on_pending :
     Ev.sleep true ∈ (scenario .epoll 4 false [.pipe] [.add 0] lazyScript 100).events := by decide
+
+/-! ### the select defect repaired by fixes/C13-select-stale-fd.patch -/
+
+/-- **No spontaneous exit (select, repaired scan).** With the `FD_CLR` of the patch, `select` never
+has a closed descriptor in its set: the wait call never fails with `EBADF`, whatever the
+callbacks add, shut down or close (including descriptors closed by the close callback). -/
+theorem select_never_ebadf (hints : Nat) (legacy : Bool) (kinds : List Kind) (pre : List Act)
+    (sc : Script) (fuel : Nat) (cfd : Bool) :
+    Ev.waitErr ∉ (scenario .select hints legacy kinds pre sc fuel false cfd).events := by
+  rw [run_events]
+  have f0 : SelF none (initSt .select hints legacy kinds false cfd) :=
+    ⟨rfl, by simp [initSt], by simp [initSt], by simp [initSt], by simp [initSt]⟩
+  have i0 : Inv none (runActs pre (initSt .select hints legacy kinds false cfd)) :=
+    runActs_inv pre (initSt_inv _ _ _ _ _ _)
+  have h0 : SelF none (runActs pre (initSt .select hints legacy kinds false cfd)) :=
+    runActs_self pre f0 (initSt_inv _ _ _ _ _ _)
+  have hb : (runActs pre (initSt .select hints legacy kinds false cfd)).backend = .select :=
+    (runActs_ext pre _).backend
+  have h1 : Ev.waitErr ∉ (loopEnd .select hints legacy kinds pre sc fuel false cfd).trace := by
+    unfold loopEnd backendRun
+    rw [hb]
+    exact selLoop_self sc fuel h0 i0 hb
+  intro hh
+  simp [St.events] at hh
+  exact h1 hh
+
+/-- context 0 is a registered socket; while the loop sleeps its peer sends 2 bytes; its read
+callback adds context 1 and shuts it down at once; the close callback closes the descriptor;
+later the peer of context 0 sends 3 more bytes -/
+def staleScript : Script :=
+  { onRead := fun c b a => if c = 0 ∧ b < 1 ∧ 1 ≤ a then [.add 1, .shut 1] else [],
+    onClose := fun _ => [], onWake := fun _ => [],
+    onIdle := fun k => if k = 0 then [.write 0 2] else [.write 0 3],
+    nIdle := 2, rmode := fun _ => .all }
+
+/-- with the original scan (`legacySel = true`) the descriptor of context 1 stays in `allset`, the
+next `select` fails, the loop gives up and context 0 never sees its last 3 bytes — poll delivers
+all 5 (corpus/C13/select-stale-fd-read.ops, replayed on the implementation) -/
+theorem legacy_select_gives_up :
+    Ev.waitErr ∈ (scenario .select 4 false [.sock, .sock] [.add 0] staleScript 100 true true).events ∧
+    outcome (scenario .select 4 false [.sock, .sock] [.add 0] staleScript 100 true true) 0 = (2, .cleared) ∧
+    outcome (scenario .poll 4 false [.sock, .sock] [.add 0] staleScript 100 true true) 0 = (5, .cleared) := by
+  decide
+
+theorem fixed_select_agrees_on_witness :
+    outcomes (scenario .select 4 false [.sock, .sock] [.add 0] staleScript 100 false true) =
+    outcomes (scenario .poll 4 false [.sock, .sock] [.add 0] staleScript 100 false true) := by
+  decide
+
+/-! ### clause 3 (agreement), class P: the outcome is a function of the kernel history -/
+
+theorem clearAll_fields (s : St) :
+    (clearAll s).delivered = s.delivered := by
+  unfold clearAll
+  have key : ∀ (l : List Nat) (s : St),
+      (l.foldl (fun s c => emit (.clear c) s) s).delivered = s.delivered := by
+    intro l
+    induction l with
+    | nil => intro s; rfl
+    | cons c l ih => intro s; rw [List.foldl_cons, ih]; rfl
+  exact key _ _
+
+/-- the outcome of a finished run, read off the state at the end of the back-end loop -/
+theorem outcome_run (b : Backend) (hints : Nat) (legacy : Bool) (kinds : List Kind) (pre : List Act)
+    (sc : Script) (fuel : Nat) (lsel cfd : Bool) (c : Nat) :
+    outcome (scenario b hints legacy kinds pre sc fuel lsel cfd) c =
+      ((loopEnd b hints legacy kinds pre sc fuel lsel cfd).delivered c,
+        if Ev.close c ∈ (loopEnd b hints legacy kinds pre sc fuel lsel cfd).trace then Fate.closed
+        else if c ∈ (loopEnd b hints legacy kinds pre sc fuel lsel cfd).ctxList then Fate.cleared
+        else Fate.none) := by
+  have hwf := (loopEnd_inv b hints legacy kinds pre sc fuel lsel cfd).wf
+  unfold outcome
+  rw [run_events]
+  have hd : (scenario b hints legacy kinds pre sc fuel lsel cfd).delivered =
+      (loopEnd b hints legacy kinds pre sc fuel lsel cfd).delivered := by
+    unfold scenario run loopEnd
+    show (clearAll _).delivered = _
+    rw [clearAll_fields]
+  rw [hd]
+  congr 1
+  unfold fateOf
+  generalize loopEnd b hints legacy kinds pre sc fuel lsel cfd = L at hwf
+  have h1 : (L.events ++ L.ctxList.map Ev.clear ++ [Ev.exit]).contains (Ev.close c) = true ↔
+      Ev.close c ∈ L.trace := by simp [St.events]
+  have h2 : (L.events ++ L.ctxList.map Ev.clear ++ [Ev.exit]).contains (Ev.clear c) = true ↔
+      c ∈ L.ctxList := by
+    simp [St.events]
+    intro hh
+    exact absurd hh ((wf_no_clear_exit hwf).1 c)
+  by_cases hcl : Ev.close c ∈ L.trace
+  · rw [if_pos (h1.mpr hcl), if_pos hcl]
+  · rw [if_neg (fun hh => hcl (h1.mp hh)), if_neg hcl]
+    by_cases hm : c ∈ L.ctxList
+    · rw [if_pos (h2.mpr hm), if_pos hm]
+    · rw [if_neg (fun hh => hm (h2.mp hh)), if_neg hm]
+
+/-- **Agreement, select (class P).** For every externally driven draining script — read callbacks
+drain and do nothing else, peers act before the run or while the loop sleeps — whose adds were all
+accepted and whose run finished, every context's outcome (bytes offered, closed / cleared /
+never registered) is exactly the one computed by the kernel-only specification `specOutcome`,
+which does not mention the back-end. -/
+theorem select_outcome_is_spec {kinds : List Kind} {pre : List Act} {sc : Script} (hp : ClassP pre sc)
+    (hints : Nat) (legacy cfd : Bool) (fuel : Nat)
+    (hfuel : Ev.fuel ∉ (scenario .select hints legacy kinds pre sc fuel false cfd).events)
+    (hrej : ∀ c, Ev.addRej c ∉ (scenario .select hints legacy kinds pre sc fuel false cfd).events) (c : Nat) :
+    outcome (scenario .select hints legacy kinds pre sc fuel false cfd) c = specOutcome kinds pre sc c := by
+  rw [outcome_run]
+  rw [run_events] at hfuel hrej
+  have p0 := pre_pc (kinds := kinds) hp .select hints legacy false cfd
+  have f0 : SelF none (initSt .select hints legacy kinds false cfd) :=
+    ⟨rfl, by simp [initSt], by simp [initSt], by simp [initSt], by simp [initSt]⟩
+  have c0 : SelC (initSt .select hints legacy kinds false cfd) :=
+    ⟨rfl, rfl, by simp [initSt], by simp [initSt, NoLost]⟩
+  have i0 : Inv none (runActs pre (initSt .select hints legacy kinds false cfd)) :=
+    runActs_inv pre (initSt_inv _ _ _ _ _ _)
+  have hc0 := c0.step (runActs_srel pre _)
+  have hf0 := runActs_self pre f0 (initSt_inv _ _ _ _ _ _)
+  have hi := loopEnd_inv .select hints legacy kinds pre sc fuel false cfd
+  have hb : (runActs pre (initSt .select hints legacy kinds false cfd)).backend = .select := hc0.backend
+  have hloop : loopEnd .select hints legacy kinds pre sc fuel false cfd =
+      selLoop sc fuel (runActs pre (initSt .select hints legacy kinds false cfd)) := by
+    unfold loopEnd backendRun; rw [hb]
+  obtain ⟨p1, hend⟩ := selLoop_pc hp fuel p0 hc0 hf0 i0
+  rw [← hloop] at p1 hend
+  have hexit : (loopEnd .select hints legacy kinds pre sc fuel false cfd).toExit = 1 := by
+    rcases hend with h' | h'
+    · exact h'
+    · exact absurd (by simp [St.events, h']) hfuel
+  exact outcome_of_pc p1 hi hexit (fun c hh => hrej c (by simp [St.events, hh])) c
 
 /-! ### clause 4: adding, rejecting and removing a context never disturbs the others -/
 
